@@ -139,17 +139,26 @@ AcceptRootStd(F, c, st, y) ==
   /\ NonNegFinite(F, y)
   /\ RootWithin(F, st, y, TolX(F, c, st))
 
-\* no_std: |y - sqrt(s)| <= 0.07 sqrt(s) + 2^-60 for some admissible s, i.e.
-\*   (y - d)^2 N <= 1.07^2 (T + tol)   or y <= d,     and   (y + d)^2 N >= 0.93^2 (T - tol)
-NoStdAbs == DPow2(-60)
+\* no_std: |y - sqrt(s)| <= 0.07 sqrt(s) + A for some admissible s, i.e.
+\*   (y - d)^2 N <= 1.07^2 (T + tol)   or y <= d,     and   (y + d)^2 N >= 0.93^2 (T - tol)       (d >= A)
+\* A = "negligible absolute term at zero" = 8 times the square root of the format's smallest normal number:
+\*   2^-60 for f32 (min normal 2^-126), 2^-508 for f64 (min normal 2^-1022).  It is a property of the FORMAT the
+\*   root is taken in: an estimate of sqrt(0) is of the order of the root of the smallest normal number (the
+\*   exponent-halving estimates give 2^-64 and 1.5 * 2^-512), and nothing larger is negligible against the values
+\*   the format distinguishes -- 2^-60 granted to an f64 root would leave every level below 1e-18 unjudged.
+NoStdAbsExp(F) == 3 - ((F.bias - 1) \div 2)
+NoStdAbs(F) == DPow2(NoStdAbsExp(F))
 RootApprox(F, st, y, tol) ==
   LET n  == Len(st.win)
       yd == Dec(F, y)
-      \* y < 2^-60: the upper bound holds trivially and y + d <= 2d (weaker, hence sound; it also keeps
+      ey == yd.exp + BBitLen(yd.mag) - 1            \* 2^ey <= y < 2^(ey+1)   (y # 0)
+      \* y < A: the upper bound holds trivially and y + d <= 2A (weaker, hence sound; it also keeps
       \* TLC from squaring a sum of terms a thousand binary places apart)
-      small == DIsZero(yd) \/ yd.exp + BBitLen(yd.mag) - 1 < -60
-      lo == IF small THEN DZero ELSE DSub(yd, NoStdAbs)
-      hi == IF small THEN DScale2(NoStdAbs, 1) ELSE DAdd(yd, NoStdAbs)
+      small == DIsZero(yd) \/ ey < NoStdAbsExp(F)
+      \* y >= 2^64 A: d = 2^(ey-64) >= A instead of A (weaker, hence sound, by a relative 2^-64; same reason)
+      d  == IF ~small /\ ey - 64 > NoStdAbsExp(F) THEN DPow2(ey - 64) ELSE NoStdAbs(F)
+      lo == IF small THEN DZero ELSE DSub(yd, d)
+      hi == IF small THEN DScale2(NoStdAbs(F), 1) ELSE DAdd(yd, d)
   IN /\ (DSign(lo) <= 0 \/ DLe(DMulInt(10000 * n, DSq(lo)), DMulInt(11449, DAdd(st.sum, tol))))
      /\ DLe(DMulInt(8649, DSub(st.sum, tol)), DMulInt(10000 * n, DSq(hi)))
 AcceptRootNoStd(F, c, st, y) ==
